@@ -113,9 +113,89 @@ pub fn run_children(inputs: &[Vec<u8>], n: usize) -> Result<Vec<Vec<String>>, St
     Ok(out)
 }
 
+/// API sequences: the id depends on nothing but the bytes of *this* mapping — not on earlier calls, on the buffer
+/// being reused in place, or on the object the mapping was derived from (`section`, `clone`).
+#[derive(Clone, Debug, Serialize, Deserialize)]
+pub struct SeqCase {
+    pub len: usize,
+    pub seed: u64,
+    /// (position fraction, new byte) edits applied in place between calls
+    pub edits: Vec<(u16, u8)>,
+    /// (start fraction, end fraction) sections taken after the parent's id was computed
+    pub sections: Vec<(u16, u16)>,
+}
+
+pub fn seq_case() -> BoxedStrategy<SeqCase> {
+    (
+        prop_oneof![4 => 1usize..300, 2 => 4000usize..9000, 2 => Just(65536usize), 1 => 65537usize..70000, 1 => Just(1usize << 20)],
+        any::<u64>(),
+        vec((any::<u16>(), any::<u8>()), 1..5),
+        vec((any::<u16>(), any::<u16>()), 1..4),
+    )
+        .prop_map(|(len, seed, edits, sections)| SeqCase { len, seed, edits, sections })
+        .boxed()
+}
+
+pub fn check_seq(c: &SeqCase, st: &mut Stats) -> Check {
+    let mut x = c.seed | 1;
+    let mut buf: Vec<u8> = (0..c.len)
+        .map(|_| {
+            x ^= x << 13;
+            x ^= x >> 7;
+            x ^= x << 17;
+            (x >> 24) as u8
+        })
+        .collect();
+    let check = |b: &[u8], what: &str, st: &mut Stats| -> Check {
+        st.evaluations += 1;
+        let want = sha1::mapping_uuid(b);
+        let got = lib_uuid(b).map_err(|p| Fail::new("uuid-panic", p))?;
+        if got != want {
+            return Err(Fail::new("uuid-history", format!("{what}: uuid() = {got}, independent computation = {want} ({} bytes)", b.len())));
+        }
+        Ok(())
+    };
+    check(&buf, "first call", st)?;
+    st.nontrivial(fnv64(&buf) ^ c.seed);
+    // in-place edits of the same allocation (same address, same length); the middle, the edges, single bytes
+    for (pos, byte) in &c.edits {
+        let at = ((*pos as usize) * buf.len()) >> 16;
+        buf[at] = buf[at].wrapping_add(byte | 1);
+        check(&buf, "after an in-place edit of the same buffer", st)?;
+    }
+    if buf.len() > 9000 {
+        let mid = buf.len() / 2;
+        buf[mid] ^= 0x5a;
+        check(&buf, "after editing only the middle of a large buffer", st)?;
+        st.class("large buffer edited in place (same address and length, edges unchanged)");
+    }
+    // sections and clones of a mapping whose id was already computed
+    let parent = proguard::ProguardMapping::new(&buf);
+    let pid = guarded(|| parent.uuid().to_string()).map_err(|p| Fail::new("uuid-panic", p))?;
+    for (a, b) in &c.sections {
+        let mut s = ((*a as usize) * (buf.len() + 1)) >> 16;
+        let mut e = ((*b as usize) * (buf.len() + 1)) >> 16;
+        if s > e {
+            std::mem::swap(&mut s, &mut e);
+        }
+        st.evaluations += 1;
+        let got = guarded(|| parent.section(s..e).uuid().to_string()).map_err(|p| Fail::new("uuid-panic", p))?;
+        let want = sha1::mapping_uuid(&buf[s..e]);
+        if got != want {
+            return Err(Fail::new("uuid-section", format!("section({s}..{e}) of a {}-byte mapping whose uuid() was already computed: uuid() = {got}, independent computation over the section's bytes = {want} (parent id {pid})", buf.len())));
+        }
+        let cloned = guarded(|| parent.section(s..e).clone().uuid().to_string()).map_err(|p| Fail::new("uuid-panic", p))?;
+        if cloned != want {
+            return Err(Fail::new("uuid-section", format!("clone of section({s}..{e}): uuid() = {cloned}, expected {want}")));
+        }
+    }
+    st.class("section()/clone() after the parent's uuid()");
+    Ok(())
+}
+
 pub fn run(ctx: &Ctx) -> Report {
     let mut rep = Report::new(ID, "exploration", ctx);
-    rep.rule = "Inputs: the empty input, random byte strings (0..200 bytes, lengths around the 55/56/63/64-byte SHA-1 padding boundaries and their multiples, 4-9 KB, 1 MiB in thorough), generated mappings rendered with LF and with CRLF, corpus files in LF and CRLF variants. Oracle: uuid() == UUIDv5(ns = UUIDv5(DNS,'guardsquare.com'), bytes) computed by an independent SHA-1 (self-tested against FIPS 180 vectors and the five literal ids of the repository's feature-gated tests); LF and CRLF renderings of the same AST get different ids; repeated calls and 4 separately started child processes return the same id. evaluations = uuid computations compared. Non-trivial = distinct inputs of length >= 1.".into();
+    rep.rule = "Inputs: the empty input, random byte strings (0..200 bytes, lengths around the 55/56/63/64-byte SHA-1 padding boundaries and their multiples, 4-9 KB, 1 MiB in thorough), generated mappings rendered with LF and with CRLF, corpus files in LF and CRLF variants. Oracle: uuid() == UUIDv5(ns = UUIDv5(DNS,'guardsquare.com'), bytes) computed by an independent SHA-1 (self-tested against FIPS 180 vectors and the five literal ids of the repository's feature-gated tests); LF and CRLF renderings of the same AST get different ids; repeated calls and 4 separately started child processes return the same id; API sequences (in-place edits of one buffer incl. >= 64 KiB buffers whose edges stay unchanged, section() and clone() after uuid() of the parent) give the id of the current bytes. evaluations = uuid computations compared. Non-trivial = distinct inputs of length >= 1.".into();
     rep.assumptions = vec!["SHA-1 model verified at start-up against FIPS 180 vectors (abc, empty, 448-bit message, one million 'a'), RFC 4122 DNS namespace, and Python's uuid module (namespace 4f44f30f-24be-53d0-bab6-f47c7120ad6c, empty input 0e71d76c-5067-5a02-a5d9-7e81070eb125)".into()];
     if let Err(e) = sha1::self_test() {
         rep.stats.skipped.push(format!("SHA-1 model self-test failed: {e}"));
@@ -135,6 +215,7 @@ pub fn run(ctx: &Ctx) -> Report {
         }
         Ok(())
     });
+    rep.run_stage("sequences", seq_case, ctx.cases(3_000, 60_000), check_seq);
     let cfg = GenCfg { plain_sourcefile_headers: true, ..GenCfg::default() };
     rep.run_stage("mappings", move || super::common::map_case(&cfg), ctx.cases(20_000, 900_000), |c: &super::common::MapCase, st: &mut Stats| {
         let lf = c.file.render(&Render { eol: Eol::Lf, final_eol: true });
@@ -242,6 +323,7 @@ pub fn replay(stage: &str, case: &Value) -> Check {
             let b = unhex(case["hex"].as_str().unwrap_or(""));
             check_bytes(&b, &mut st).map(|_| ())
         }
+        "sequences" => check_seq(&serde_json::from_value(case.clone()).map_err(|e| Fail::new("harness-replay", e.to_string()))?, &mut st),
         "mappings" => {
             let c: super::common::MapCase = serde_json::from_value(case.clone()).map_err(|e| Fail::new("harness-replay", e.to_string()))?;
             let lf = c.file.render(&Render { eol: Eol::Lf, final_eol: true });
